@@ -12,7 +12,7 @@ ASSUMPTIONS = ["reference AES written from FIPS-197, self-tested against FIPS-19
 NSHARDS = {"quick": 16, "thorough": 32}
 BUDGET_S = {"quick": 200, "thorough": 1500}
 MIN_HITS = {
-    'quick': {"enc": 264, "dec": 264, "ctr_carry": 44, "bad_pad": 320, "bad_len": 84},
+    'quick': {"enc": 264, "dec": 264, "ctr_carry": 44, "bad_pad": 320, "bad_len": 2209},
     'thorough': {"enc": 9196, "dec": 9196, "ctr_carry": 384, "bad_pad": 7680, "bad_len": 2016},
 }
 MODES = {"128cbc": 16, "256cbc": 32, "128ctr": 16, "256ctr": 32}
@@ -98,6 +98,21 @@ def cases(ctx):
             if iv is not None:
                 for L in (1, 2, 3, 17):
                     yield {"k": "rt", "mode": mode, "key": key.hex(), "iv": iv.hex(), "msg": gen.rbytes(r, L).hex(), "rel": "keystream_starts_with_zero"}
+    # call SEQUENCES on one thread with structured keys that agree in folds / halves / words (state kept between calls, keyed on
+    # part of the key only, shows as a wrong ciphertext for the later key)
+    for mode, kl in MODES.items():
+        k += 1
+        if k % N != S and not t:
+            continue
+        w1, w2, w3, w4 = (gen.rbytes(r, 8) for _ in range(4))
+        if kl == 16:
+            fam = [bytes(16), b"\xff" * 16, w1 * 2, w2 * 2, w1 + w2, w2 + w1, bytes(x ^ 0xFF for x in w1 + w2), w3 + w3, bytes(8) + w1, w1 + bytes(8)]
+        else:
+            fam = [bytes(32), b"\xff" * 32, w1 * 4, w2 * 4, w1 + w2 + w3 + w4, w2 + w1 + w4 + w3, w4 + w3 + w2 + w1, w1 + w1 + w2 + w2, w2 + w2 + w1 + w1, (w1 + w2) * 2, (w2 + w1) * 2, bytes(x ^ 0xFF for x in w1 + w2 + w3 + w4)]
+        r.shuffle(fam)
+        iv = gen.rbytes(r, 16)
+        yield {"k": "seq", "mode": mode, "keys": [x.hex() for x in fam], "iv": iv.hex(), "msg": gen.rbytes(r, r.choice([1, 16, 33, 64])).hex(), "same_iv": True}
+        yield {"k": "seq", "mode": mode, "keys": [x.hex() for x in fam[::-1]], "iv": iv.hex(), "msg": gen.rbytes(r, 20).hex(), "same_iv": False}
     # CBC rejection cases
     for mode in ("128cbc", "256cbc"):
         for L in (0, 1, 15, 16, 17, 31, 32, 47):
@@ -114,12 +129,21 @@ def cases(ctx):
                     if 0 <= cut and cut % 16:
                         yield {"k": "badlen", "mode": mode, "key": key.hex(), "iv": iv.hex(), "ct": (ct + b"\x00")[:cut].hex()}
                 yield {"k": "badlen", "mode": mode, "key": key.hex(), "iv": iv.hex(), "ct": ""}
+                if rep == 0:
+                    # a valid ciphertext followed by junk: every single byte value, and common text-transport tails
+                    for junk in [bytes([b]) for b in range(256)] + [b"\r\n", b"\n\n", b"\n\r", b"  ", b"\r\n\r\n", b"=\n", b"\x00" * 15, b"\n" * 15, b"\x10" * 15]:
+                        yield {"k": "badlen", "mode": mode, "key": key.hex(), "iv": iv.hex(), "ct": (ct + junk).hex(), "junk": True}
+                    # a truncation that happens to END with a line-break byte
+                    ct2 = bytearray(ct)
+                    if len(ct2) >= 17:
+                        ct2[len(ct2) - 16] = 0x0A
+                        yield {"k": "badlen", "mode": mode, "key": key.hex(), "iv": iv.hex(), "ct": bytes(ct2[: len(ct2) - 15]).hex(), "junk": True}
 
 
 def judge(ctx, case):
     k = case["k"]
     mode = case["mode"]
-    key, iv = bytes.fromhex(case["key"]), bytes.fromhex(case["iv"])
+    key, iv = bytes.fromhex(case.get("key", "")), bytes.fromhex(case["iv"])
     if k == "rt":
         m = bytes.fromhex(case["msg"])
         if m:
@@ -149,6 +173,24 @@ def judge(ctx, case):
         ctx.ev()
         if r2.get("ok") != case["msg"]:
             ctx.viol("%s decrypt(encrypt(m)) != m" % mode, {"got": str(r2.get("ok", r2.get("err")))[:200]})
+    elif k == "seq":
+        m = bytes.fromhex(case["msg"])
+        ctx.hit("key_sequence")
+        ctx.nontrivial()
+        for j, kh in enumerate(case["keys"]):
+            kb = bytes.fromhex(kh)
+            ivj = iv if case["same_iv"] else bytes((x + j) & 0xFF for x in iv)
+            vi = bool(j & 1)
+            r = ctx.call({"op": "aes", "mode": mode, "dir": "enc", "key": kh, "iv": ivj.hex(), "msg": case["msg"], "via_impl": vi})
+            ctx.ev()
+            exp = aes.cbc_encrypt(kb, ivj, m) if mode.endswith("cbc") else aes.ctr(kb, ivj, m)
+            if r.get("ok") != exp.hex():
+                ctx.viol("%s ciphertext differs from the reference for the %s key of a call sequence with structured keys" % (mode, "first" if j == 0 else "second or later"), {"j": j, "key": kh, "got": str(r.get("ok", r.get("err")))[:100], "exp": exp.hex()[:100]})
+                continue
+            r2 = ctx.call({"op": "aes", "mode": mode, "dir": "dec", "key": kh, "iv": ivj.hex(), "msg": r["ok"], "via_impl": not vi})
+            ctx.ev()
+            if r2.get("ok") != case["msg"]:
+                ctx.viol("%s decrypt(encrypt(m)) != m inside a call sequence with structured keys" % mode, {"j": j})
     elif k == "badpad":
         m = bytes.fromhex(case["msg"])
         ctx.nontrivial()
@@ -176,8 +218,10 @@ def judge(ctx, case):
                 ctx.viol("%s decryption accepts ciphertext with invalid PKCS#7 padding" % mode, {"tail": p[-16:].hex(), "resp": str(r.get("ok", r.get("panic")))[:100]})
     elif k == "badlen":
         ctx.hit("bad_len")
+        if case.get("junk"):
+            ctx.hit("valid_ciphertext_plus_junk")
         ctx.nontrivial()
         r = ctx.call({"op": "aes", "mode": mode, "dir": "dec", "key": case["key"], "iv": case["iv"], "msg": case["ct"]})
         ctx.ev()
         if "err" not in r:
-            ctx.viol("%s decryption accepts ciphertext of invalid length (%s)" % (mode, "zero" if not case["ct"] else "not a multiple of 16"), {"len": len(case["ct"]) // 2, "resp": str(r.get("ok", r.get("panic")))[:100]})
+            ctx.viol("%s decryption accepts ciphertext of invalid length (%s)" % (mode, "zero" if not case["ct"] else "valid ciphertext followed by extra bytes" if case.get("junk") else "not a multiple of 16"), {"len": len(case["ct"]) // 2, "resp": str(r.get("ok", r.get("panic")))[:100]})
